@@ -23,6 +23,11 @@ def contracts(tier):
     return hierarchical.CONTRACTS
 
 
+def extra_obligations(tier):
+    from pyvc import solve
+    return [solve.custom_result('hierarchical:HSpace[cache-invalidation]', hierarchical.F, 'HSpace.refine / _clear_cache', hierarchical.cache_invalidation_obligations)]
+
+
 MANIFEST = {
     'category': 'proof',
     'technique': 'contract-based deductive verification (pyvc: list-of-sets state over an uninterpreted cell sort, quantified loop invariant, z3); exhaustive/random refinement histories on the real code as bounded stand-in for the function-level and matrix-level clauses',
